@@ -260,7 +260,7 @@ def run(ctx):
                                 ncol += 1
                                 continue
                             ncol += 1
-                            res = [list(t) for t in Perm(p).occurrences_in(Perm(q), list(cp), list(cq))]
+                            res = [list(t) for t in Perm(p).occurrences_in(Perm(q), colour_objects(cp, ncol, ncol), colour_objects(cq, ncol, ncol))]
                             events.append({"op": "Col", "p": list(p), "q": list(q), "cp": list(cp), "cq": list(cq), "res": res})
     nextra = len(events)
     events.extend(hardening_events(ctx, quick))
@@ -391,6 +391,25 @@ def _cold_start_events(rnd, nproc):
 
 KNOWN_SITE = "Perm.occurrences_in with a pattern of more entries than the interpreter's recursion limit allows"
 KNOWN_DEV = "RecursionDepthIsPatternLength"
+
+
+def colour_objects(labels, kind, salt):
+    """The colouring with labels 0 / 1 written with objects of another kind.  Every entry is a freshly made object: equal
+    colours of the pattern and of the permutation are equal values, never the same object (colours are compared by ==)."""
+    kind %= 7
+    if kind == 0:
+        return [int(str(10 ** 6 + c)) for c in labels]                    # integers outside the interpreter's small-int cache
+    if kind == 1:
+        return [(c, "x" * (salt % 3 + 1)) for c in labels]                # tuples
+    if kind == 2:
+        return tuple(float(c) + 0.5 for c in labels)
+    if kind == 3:
+        return ["".join(["col", str(c), str(salt % 2)]) for c in labels]  # strings built at run time
+    if kind == 4:
+        return [frozenset([c, c + 2]) for c in labels]
+    if kind == 5:
+        return [bool(c) for c in labels]
+    return [c for c in labels]
 
 
 def long_events(ctx, quick):
@@ -541,7 +560,9 @@ def hardening_events(ctx, quick):
             elif r < 0.9:
                 cp = [rnd.randint(0, 1) for _ in p]
                 cq = [rnd.randint(0, 1) for _ in q]
-                ev.append({"op": "SearchCol", "q": list(q), "cp": cp, "cq": cq, "res": [list(t) for t in P.occurrences_in(Q, cp, cq)]})
+                kd = rnd.randrange(7)
+                ev.append({"op": "SearchCol", "q": list(q), "cp": cp, "cq": cq,
+                           "res": [list(t) for t in P.occurrences_in(Q, colour_objects(cp, kd, len(ev)), colour_objects(cq, kd, len(ev)))]})
             else:
                 ev.append({"op": "Pred", "kind": "contains", "q": list(q), "ps": [list(p)], "res": Q.contains(P)})
                 ev.append({"op": "Pred", "kind": "count", "q": list(q), "ps": [list(p)], "res": P.count_occurrences_in(Q)})
